@@ -102,6 +102,9 @@ def judge(ctx, case, o, stats):
     exp = case["exp"]
     probe = case.get("probe", "?")
     kinds = "+".join(sorted(kinds_of(case) - {"StringRef"})) if probe == "builder" else probe
+    if probe == "files":
+        u = case["units"][0]
+        kinds = "files:unit-v%s:lineprog-v%s" % (u["version"], u.get("lineprog"))
     if probe == "twins":
         kinds = "twins:" + "+".join(sorted(kinds_of(case) - {"Udata"} or {"Udata"}))
     if probe == "lists":
@@ -137,6 +140,10 @@ def judge(ctx, case, o, stats):
             ctx.drift.append({"what": "error variant", "got": o.get("err"), "model": exp["err"], "probe": kinds})
         return
     if not o.get("ok"):
+        if o.get("stage") == "write" and case.get("alt_err"):
+            # unit v5 + line program v2-4: refusing the pair is as good as writing resolvable indices
+            stats["alt_err"] = stats.get("alt_err", 0) + 1
+            return
         if o.get("stage") == "write":
             ctx.violation("unitw:write-failed:%s:%s:%s" % (o.get("err"), kinds, tagline(case)),
                           "an encodable request was refused: %s" % o.get("detail"), case, o)
@@ -145,6 +152,13 @@ def judge(ctx, case, o, stats):
                           "the written sections cannot be read back: %s" % o.get("err"), case, o)
         return
     diffs, drift = compare_forest(exp, o)
+    if diffs and probe == "files" and case.get("alt_err"):
+        u = case["units"][0]
+        ctx.violation("unitw:file-index:unit-v%s:lineprog-v%s" % (u["version"], u.get("lineprog")),
+                      "a version %s unit with a version %s line program is written, but its file attributes do not resolve to the "
+                      "files that were added (FileId::raw uses the unit's version, the table is the program's): %s"
+                      % (u["version"], u.get("lineprog"), "; ".join(diffs[:3])), case, {"units": o["units"]})
+        return
     if diffs:
         ctx.violation("unitw:readback:%s:%s" % (kinds, tagline(case)),
                       "read-back differs from what was built: %s" % "; ".join(diffs[:4]), case,
@@ -173,7 +187,8 @@ def run(ctx):
                 ("builder", dict(Mode='"builder"', MaxS=3, MaxM=1, MaxUnits=2, Salt=s, EmitMod=1, AllPlacements="FALSE")),
                 ("wide", dict(Mode='"wide"', MaxS=0, MaxM=0, MaxUnits=2, Salt=s, EmitMod=1, AllPlacements="FALSE")),
                 ("lists", dict(Mode='"lists"', MaxS=0, MaxM=0, MaxUnits=2, Salt=s, EmitMod=1, AllPlacements="FALSE")),
-                ("twins", dict(Mode='"twins"', MaxS=0, MaxM=0, MaxUnits=2, Salt=s, EmitMod=1, AllPlacements="FALSE"))]
+                ("twins", dict(Mode='"twins"', MaxS=0, MaxM=0, MaxUnits=2, Salt=s, EmitMod=1, AllPlacements="FALSE")),
+                ("files", dict(Mode='"files"', MaxS=0, MaxM=0, MaxUnits=2, Salt=s, EmitMod=1, AllPlacements="FALSE"))]
     else:
         runs = [("kinds", dict(Mode='"kinds"', MaxS=0, MaxM=0, MaxUnits=2, Salt=s, EmitMod=1, AllPlacements="TRUE")),
                 ("builder", dict(Mode='"builder"', MaxS=4, MaxM=1, MaxUnits=2, Salt=s, EmitMod=1, AllPlacements="FALSE")),
@@ -182,7 +197,8 @@ def run(ctx):
                 ("wide", dict(Mode='"wide"', MaxS=0, MaxM=0, MaxUnits=2, Salt=s + 1, EmitMod=1, AllPlacements="FALSE")),
                 ("lists", dict(Mode='"lists"', MaxS=0, MaxM=0, MaxUnits=2, Salt=s, EmitMod=1, AllPlacements="FALSE")),
                 ("lists", dict(Mode='"lists"', MaxS=0, MaxM=0, MaxUnits=2, Salt=s + 1, EmitMod=1, AllPlacements="FALSE")),
-                ("twins", dict(Mode='"twins"', MaxS=0, MaxM=0, MaxUnits=2, Salt=s, EmitMod=1, AllPlacements="TRUE"))]
+                ("twins", dict(Mode='"twins"', MaxS=0, MaxM=0, MaxUnits=2, Salt=s, EmitMod=1, AllPlacements="TRUE")),
+                ("files", dict(Mode='"files"', MaxS=0, MaxM=0, MaxUnits=2, Salt=s, EmitMod=1, AllPlacements="FALSE"))]
     stats = {"exp_err": 0, "same": 0, "bytes_equal": 0}
     seen_kinds = set()
     for ri, (name, consts) in enumerate(runs):
@@ -252,7 +268,7 @@ def run(ctx):
     ctx.assumptions += [
         "address sizes are those gimli's reader accepts (1, 2, 4, 8); address size 3 only together with an address (expected: error)",
         "strings contain no NUL byte and expressions are raw bytecode (operation lists are C15's machine)",
-        "AttributeValue::FileIndex(Some) / line programs and DebugInfoRef::Symbol are not generated; incremental per-unit writing goes through ConvertUnit::write on a conversion of an input with pre-reserved dummy entries",
+        "line programs carry no rows (only the file table is used) and DebugInfoRef::Symbol is not generated; incremental per-unit writing goes through ConvertUnit::write on a conversion of an input with pre-reserved dummy entries",
         "offsets of range / location lists, line programs and of the abbreviation tables of later units are not predicted (compared through the reader only)",
         "which error variant is reported is compared as drift; byte-exact .debug_info / entry offsets are compared as drift when the meaning is intact",
     ]
